@@ -632,7 +632,24 @@ def rule_g(ctx):
                     # the width is a captured variable whose value, where the closure is created, is the
                     # sub-renderer's own width (`sub_r.width`)
                     o = origin(cb, tt["args"][1])
-                    if o and o[0] == "place":
+                    if o and o[0] == "place" and not o[1]["p"] and 2 <= o[1]["l"] <= cb.arg_count:
+                        # the width is a parameter of the (named) closure: every call of it passes the column's own width
+                        k = o[1]["l"] - 2
+                        callers = []
+                        for body in [b] + [c for _x, c in transitive_closures(F, b)]:
+                            callers += [(body, t2) for _bb2, t2 in body.calls(lambda cd, t2: cd == cb.id)]
+                        good = bool(callers)
+                        for body, t2 in callers:
+                            ao = origin(body, t2["args"][1]) if len(t2["args"]) > 1 else None
+                            if not (ao and ao[0] == "rv" and ao[1].get("agg") == "tuple" and k < len(ao[1]["ops"])):
+                                good = False
+                                continue
+                            cn = norm(body.canon(ao[1]["ops"][k]))
+                            while cn.startswith("up{") and cn.endswith("}"):
+                                cn = cn[3:-1]
+                            good = good and cn.lstrip("&").endswith("arg2.width")
+                        okc = good
+                    elif o and o[0] == "place":
                         ups = [e for e in o[1]["p"] if isinstance(e, dict) and "f" in e and str(e.get("o", "")).startswith("closure:")]
                         if ups:
                             for _pbb, pcb in transitive_closures(F, b):
